@@ -274,6 +274,8 @@ func checks() map[string]CheckDef {
 				Labels: []string{"C15/both-submissions-stored-once", "C15/one-longest-header-per-height", "C15/store-is-a-sequential-outcome"}},
 			{Pkg: "internal/zzverif/c15", Func: "HarnessReaderDuringAdd", Quick: [][]int64{{2}, {3}}, Thorough: [][]int64{{3}, {4}},
 				Labels: []string{"C15/reader-gets-a-tip", "C15/observed-tip-is-stored", "C15/observed-tip-is-the-highest-longest-chain-header", "C15/observed-longest-chain-is-one-path-from-genesis"}},
+			{Pkg: "internal/transports/p2p/peer", Func: "HarnessTwoPeers", Quick: [][]int64{{1, 1}}, Thorough: [][]int64{{1, 2}, {2, 1}},
+				Labels: []string{"C15/rows-wellformed", "C15/both-submissions-stored-once", "C15/one-longest-header-per-height", "C15/store-is-a-sequential-outcome", "C15/one-event-per-stored-header"}},
 		},
 		Bounds:  []string{"two concurrent Add calls with two different new headers (arbitrary parents: stored or not, each other, equal or different) on an arbitrary INV-H store of k rows (quick k=1, thorough k<=2), interleaved in every way at repository-method granularity with at most p preemptions (quick p<=2, thorough p<=3 at k=1, p<=2 at k=2); the schedule is a vector of solver variables; the outcome is compared with both sequential orders run on copies of the same store", "the slice 'one header extends the longest chain, the other a stored stale branch' one row further: k=3, p=1 (quick) / p=2 (thorough)", "the slice 'one header extends the tip, the other forks off a longest-chain header below the tip': k=2, p<=2 (quick) / k=3 (thorough)", "one tip reader at an arbitrary storage-operation boundary of one Add on an arbitrary INV-H store (quick k<=3, thorough k<=4: includes a reorganisation)"},
 		Outside: []string{"data-race freedom (a property of unsynchronised memory accesses, not of values: the race detector's job, not expressible as an assertion over this execution)", "free-running goroutine schedules, peers connecting and disconnecting, the shared peers map, notification delivery concurrency", "three or more submitters; preemption inside a repository method (each is one statement or one single-statement transaction)", "submissions of an already stored or forbidden header (sequential behaviour is C01)"},
